@@ -1,6 +1,8 @@
 package lidx
 
 import (
+	"strings"
+
 	"github.com/33cn/chain33/types"
 )
 
@@ -92,4 +94,68 @@ func Alphabet() []Spec {
 			return cat(e.Group([]int{A, E}, []int{A, C}, []int64{8, 9}), one(e.Transfer(A, D, 10)))
 		}},
 	}
+}
+
+type kind struct {
+	name string
+	n    int
+	mk   func(e *Env) []*types.Transaction
+}
+
+func kinds() []kind {
+	t := func(from, to int, amount int64) func(e *Env) []*types.Transaction {
+		return func(e *Env) []*types.Transaction { return one(e.Transfer(from, to, amount)) }
+	}
+	return []kind{
+		{"A->D", 1, t(A, D, 41)},
+		{"A->C(unseen)", 1, t(A, C, 42)},
+		{"A->A", 1, t(A, A, 43)},
+		{"B->D(fails)", 1, t(B, D, 1e9)},
+		{"D->A", 1, t(D, A, 44)},
+		{"none(A)", 1, func(e *Env) []*types.Transaction { return one(e.None(A)) }},
+		{"manage(A)", 1, func(e *Env) []*types.Transaction { return one(e.Manage(A, ManageKey, "add", "w")) }},
+		{"manage-apply(A)", 1, func(e *Env) []*types.Transaction { return one(e.ManageApply(A, ManageKey, "add", "q")) }},
+		{"group[A->D,A->C]", 2, func(e *Env) []*types.Transaction { return e.Group([]int{A, A}, []int{D, C}, []int64{5, 6}) }},
+		{"group[A->D,B->D(fails)]", 2, func(e *Env) []*types.Transaction { return e.Group([]int{A, B}, []int{D, D}, []int64{5, 1e9}) }},
+	}
+}
+
+// AllBlocks enumerates every multiset of transaction kinds (a known / never-seen / own receiver, a
+// failing transfer, a sender with little history, none, manage Modify, manage Apply, a succeeding and
+// a failing group of two) with at most maxTx transactions, the curated Alphabet first; names are unique.
+func AllBlocks(maxTx int) []Spec {
+	out := Alphabet()
+	seen := map[string]bool{}
+	for _, s := range out {
+		seen[s.Name] = true
+	}
+	ks := kinds()
+	var rec func(from int, left int, chosen []int)
+	rec = func(from int, left int, chosen []int) {
+		if len(chosen) > 0 {
+			var names []string
+			for _, i := range chosen {
+				names = append(names, ks[i].name)
+			}
+			name := strings.Join(names, ",")
+			if !seen[name] {
+				seen[name] = true
+				idx := append([]int{}, chosen...)
+				out = append(out, Spec{name, func(e *Env) []*types.Transaction {
+					var txs []*types.Transaction
+					for _, i := range idx {
+						txs = append(txs, ks[i].mk(e)...)
+					}
+					return txs
+				}})
+			}
+		}
+		for i := from; i < len(ks); i++ {
+			if ks[i].n <= left {
+				rec(i, left-ks[i].n, append(chosen, i))
+			}
+		}
+	}
+	rec(0, maxTx, nil)
+	return out
 }
